@@ -516,6 +516,8 @@ func (w *slWorker) judgeSends(c *slNode, cid string, endTime time.Time, hasRec, 
 	if nSlash > 0 {
 		if c.InFlight[cid] {
 			vs = append(vs, vf("C09", "duplicate-in-flight", "consumer %s sent a slash packet while an earlier one is still unacknowledged", cid))
+			// the same report leaving twice is also two outstanding reports for one validator (C08)
+			vs = append(vs, vf("C08", "second-outstanding-report:resent", "consumer %s sent a report again while its first copy is still unacknowledged: two reports for one validator are outstanding", cid))
 		}
 		c.InFlight[cid] = true
 		if hasRec {
